@@ -41,6 +41,12 @@ type RaceCase struct {
 	Raw     [][]RaceOp `json:"raw"`     // one op list per raw client goroutine
 	Inproc  [][]RaceOp `json:"inproc"`  // in-process Publish/Subscribe/Unsubscribe goroutines
 	Clients int        `json:"clients"` // library Clients connecting concurrently over TCP
+	// Jam: beside the rest, one subscriber stops reading while a publisher
+	// sends it JamN messages of JamSize bytes (more than both connections'
+	// buffers take), then reads again: the publisher's processor is held up in
+	// the middle of a delivery while its own connection keeps receiving.
+	JamN    int `json:"jam_n,omitempty"`
+	JamSize int `json:"jam_size,omitempty"`
 }
 
 var raceTopics = []string{"r/a", "r/b", "r/a/b", "r/c"}
@@ -171,6 +177,40 @@ func runRace(c RaceCase) (fail string, classes []string) {
 			}
 		}(gi, ops)
 	}
+	if c.JamN > 0 {
+		wg.Add(1)
+		go func() {
+			defer wg.Done()
+			<-start
+			J, K := b.Dial("jam-sub"), b.Dial("jam-pub")
+			if _, err := J.Connect(wire.ConnectPacket("jamsub", true, 120)); err != nil {
+				return
+			}
+			if _, err := K.Connect(wire.ConnectPacket("jampub", true, 120)); err != nil {
+				return
+			}
+			J.Send(&codec.Packet{Type: codec.SUBSCRIBE, PacketID: 1, Topics: [][]byte{[]byte("jam/x")}, QoSs: []byte{0}})
+			if _, err := J.Barrier(); err != nil {
+				return
+			}
+			J.Stall()
+			for i := 0; i < c.JamN; i++ {
+				K.SendAsync(codec.Encode(&codec.Packet{Type: codec.PUBLISH, Topic: []byte("jam/x"), Payload: bytes.Repeat([]byte{byte('A' + i%26)}, c.JamSize)}))
+			}
+			time.Sleep(60 * time.Millisecond) // the publisher runs into the subscriber's full buffers
+			J.Unstall()
+			class("publisher-held-up-by-a-subscriber-that-stopped-reading")
+			K.BarrierTimeout(10 * time.Second)
+			J.BarrierTimeout(10 * time.Second)
+			for _, cn := range []*fix.Conn{J, K} {
+				if se := cn.StreamErr(); se != nil {
+					setFail(fmt.Sprintf("%s received a malformed stream: %v", cn.Name, se))
+				}
+				cn.Close()
+				cn.WaitTeardown(10 * time.Second)
+			}
+		}()
+	}
 	// library clients over TCP
 	var ln net.Listener
 	if c.Clients > 0 {
@@ -285,6 +325,9 @@ func genRace(t *rapid.T) RaceCase {
 		c.Inproc = append(c.Inproc, ops)
 	}
 	c.Clients = rapid.IntRange(0, 4).Draw(t, "nlib")
+	if rapid.IntRange(0, 2).Draw(t, "jam") == 0 {
+		c.JamN, c.JamSize = rapid.IntRange(12, 30).Draw(t, "jamn"), rapid.SampledFrom([]int{3000, 5000, 8000}).Draw(t, "jamsize")
+	}
 	return c
 }
 
